@@ -1,0 +1,7 @@
+//go:build !verif
+
+package parser
+
+const verifOn = false
+
+func verifEmit(string, ...interface{}) {}
